@@ -324,3 +324,106 @@ Proof.
   { intros J [<-|[<-|[<-|[]]]]; vm_compute; repeat constructor; cbn; intuition discriminate. }
   split; vm_compute; reflexivity.
 Qed.
+
+(* ---- the link of a run whose log file name is shared with another run of the
+   same invocation leads to the OTHER run's extraction (the first creation of a
+   path decides, and the extraction depends on the status) ---- *)
+Definition w_shared : input :=
+  [mkarch (bs "a1")
+     [mkentry (bs "2022-10-25.1") true
+        (Some (bs (hdr ++ "1,x/a,0,1,0,s.log,root,1000,0
+2,x/b,1,1,0,s.log,root,1001,0
+3,end,0,100,0,,root,1010,0
+")))
+        (std_files ++ [(bs "s.log", bs "cc -o t t.c
+==== t ====
+SKIPPED
+")])%list]].
+
+Lemma link_witness :
+  exists pg v I sr other,
+    run_html_exec w_shared = Some pg /\ view (walk_dirs exec_qsorts) w_shared = Some v /\
+    In I v /\ In sr (si_runs I) /\ sr_suite sr = bs "x/b" /\
+    tree_lookup (p_tree pg) (pjoin (pjoin (si_arch I) (si_date I)) (sr_log sr)) = Some (Some other) /\
+    other <> spec_extract (spec_status (sr_exit sr) (sr_content sr)) (sr_content sr).
+Proof.
+  do 2 eexists.
+  exists (match view (walk_dirs exec_qsorts) w_shared with Some (x :: _) => x | _ => mksinv [] [] 0%Z 0%Z None false None None [] [] end).
+  exists (match view (walk_dirs exec_qsorts) w_shared with
+          | Some (x :: _) => nth 1 (si_runs x) (mksrun [] 0%Z [] [])
+          | _ => mksrun [] 0%Z [] [] end).
+  eexists.
+  split; [vm_compute; reflexivity|]. split; [vm_compute; reflexivity|].
+  split; [vm_compute; left; reflexivity|]. split; [vm_compute; right; left; reflexivity|].
+  split; [vm_compute; reflexivity|]. split; [vm_compute; reflexivity|].
+  vm_compute. discriminate.
+Qed.
+
+(* ---- the duplicate-suite defect does not depend on qsort either ---- *)
+
+Definition w_dup_state : state :=
+  match parse_all exec_qsorts w_dup (mkstate [] [] []) with Some st => st | None => mkstate [] [] [] end.
+
+Lemma w_dup_walk q : qsorts_ok q ->
+  walk_dirs q (a_entries (hd (mkarch [] []) w_dup)) = walk_dirs exec_qsorts (a_entries (hd (mkarch [] []) w_dup)).
+Proof.
+  intros [Hd _]. unfold walk_dirs.
+  destruct (filter accepted (a_entries (hd (mkarch [] []) w_dup))) as [|e1 [|e2 [|e3 l]]] eqn:Ef;
+    try (vm_compute in Ef; discriminate).
+  vm_compute in Ef. injection Ef as <- <-.
+  match goal with |- context [qs_dirs q [?a; ?b]] =>
+    destruct (sorts_two _ _ a b Hd) as [[E _]|[_ E]]; [rewrite E|vm_compute in E; discriminate] end.
+  vm_compute. reflexivity.
+Qed.
+
+Lemma dup_any_qsort q : qsorts_ok q ->
+  exists pg v I S c0 st href,
+    run_html q w_dup = Some pg /\ view (walk_dirs q) w_dup = Some v /\
+    distinct_times v /\ In I v /\
+    nth_error (p_cols pg) 1 = Some (render_column (rinv_of I)) /\
+    In (S, RowOk [c0; Some (st, href)]) (p_rows pg) /\ ~ ran_in S I /\
+    si_date I = bs "2022-10-24.1" /\ prefixb (bs "a1/2022-10-25.1/") href = true.
+Proof.
+  intros Hq. pose proof Hq as [_ [Hi [Hr Hs]]].
+  assert (Hparse : parse_all q w_dup (mkstate [] [] []) = Some w_dup_state).
+  { change w_dup with (hd (mkarch [] []) w_dup :: tl w_dup) at 1.
+    cbn [parse_all]. rewrite (w_dup_walk q Hq). vm_compute. reflexivity. }
+  assert (Hview : view (walk_dirs q) w_dup = view (walk_dirs exec_qsorts) w_dup).
+  { change w_dup with (hd (mkarch [] []) w_dup :: tl w_dup).
+    cbn [view]. rewrite (w_dup_walk q Hq). reflexivity. }
+  assert (Hrun : run_html q w_dup = Some (render q w_dup_state)).
+  { unfold run_html. change w_dup with (hd (mkarch [] []) w_dup :: tl w_dup) at 1.
+    cbv beta iota. change (hd (mkarch [] []) w_dup :: tl w_dup) with w_dup. now rewrite Hparse. }
+  rewrite Hrun, Hview. unfold render.
+  remember (st_invs w_dup_state) as invs eqn:Ei. vm_compute in Ei.
+  remember (st_suites w_dup_state) as ss eqn:Es. vm_compute in Es.
+  remember (st_tree w_dup_state) as tr eqn:Et. clear Et.
+  subst invs ss.
+  unfold sort_suites. cbn [filter s_fail s_name Nat.ltb Nat.leb negb andb].
+  repeat match goal with |- context [prefixb nonregress_prefix ?n] =>
+    change (prefixb nonregress_prefix n) with false end.
+  cbn [negb andb]. rewrite (sorts_nil _ _ Hs). cbn [app].
+  match goal with |- context [qs_suites q [?a; ?b]] =>
+    destruct (sorts_two _ _ a b Hs) as [[E E2]|[E E2]]; try (vm_compute in E2; discriminate E2); rewrite E; clear E2 end.
+  cbn [app map]. rewrite !render_suite_eq. cbn [s_name s_runs]. rewrite !(sorts_one _ _ _ Hr).
+  match goal with |- context [qs_invs q [?a; ?b]] =>
+    destruct (sorts_two _ _ a b Hi) as [[E' E2]|[E' E2]]; try (vm_compute in E2; discriminate E2); rewrite E'; clear E E' E2 end.
+  match goal with |- context [qs_runs q [?a; ?b]] =>
+    destruct (sorts_two _ _ a b Hr) as [[E _]|[E _]]; rewrite E; clear E end.
+  - do 2 eexists. exists (match view (walk_dirs exec_qsorts) w_dup with Some (x :: _) => x | _ => mksinv [] [] 0%Z 0%Z None false None None [] [] end).
+    exists (bs "x/s"). do 3 eexists.
+    split; [reflexivity|]. split; [vm_compute; reflexivity|].
+    split; [vm_compute; repeat constructor; cbn; intuition discriminate|].
+    split; [vm_compute; left; reflexivity|].
+    split; [vm_compute; reflexivity|].
+    split; [vm_compute; left; reflexivity|].
+    split; [vm_compute; intuition discriminate|]. split; vm_compute; reflexivity.
+  - do 2 eexists. exists (match view (walk_dirs exec_qsorts) w_dup with Some (x :: _) => x | _ => mksinv [] [] 0%Z 0%Z None false None None [] [] end).
+    exists (bs "x/s"). do 3 eexists.
+    split; [reflexivity|]. split; [vm_compute; reflexivity|].
+    split; [vm_compute; repeat constructor; cbn; intuition discriminate|].
+    split; [vm_compute; left; reflexivity|].
+    split; [vm_compute; reflexivity|].
+    split; [vm_compute; left; reflexivity|].
+    split; [vm_compute; intuition discriminate|]. split; vm_compute; reflexivity.
+Qed.
